@@ -55,7 +55,7 @@ func (g *gen) add(c *funcs.Class) {
 	g.stats["tag:"+c.Kind+":"+c.Tag]++
 }
 
-func (g *gen) anyType() int { return g.rng.Intn(len(funcs.Types)) }
+func (g *gen) anyType() int { return g.rng.Intn(funcs.PoolSize()) }
 
 func (g *gen) okType() int {
 	ok := funcs.OKTypes()
@@ -284,6 +284,15 @@ func (g *gen) genC15() {
 		Inner: []funcs.Param{{Name: "b", T: 18}}, Rs: g.types(1, false)})
 	g.add(&funcs.Class{Prop: "C15", Kind: "uncurry", Tag: "qualifier", Outer: []funcs.Param{{Name: "a", T: 18}},
 		Inner: []funcs.Param{{Name: "unsafe", T: g.anyType()}, {Name: "c", T: 18}}, Rs: g.types(1, false)})
+	// uncurry of a function of Step's own shape: an inner parameter named like the outer one AND an inner parameter
+	// `f Step` (an argument that could stand in for the curried function: if the wrapper's `f` resolved to it, the
+	// text would still compile and call the decoy instead of the function)
+	g.add(&funcs.Class{Prop: "C15", Kind: "uncurry", Tag: "recursive", Outer: []funcs.Param{{Name: "n", T: 0}},
+		Inner: []funcs.Param{{Name: "n", T: 0}, {Name: "f", T: 22}}, Rs: []int{0}})
+	g.add(&funcs.Class{Prop: "C15", Kind: "uncurry", Tag: "recursive", Outer: []funcs.Param{{Name: "a", T: 0}},
+		Inner: []funcs.Param{{Name: "_", T: 0}, {Name: "f", T: 22}}, Rs: []int{0}})
+	g.add(&funcs.Class{Prop: "C15", Kind: "uncurry", Tag: "recursive", Outer: []funcs.Param{{Name: "n", T: 0}},
+		Inner: []funcs.Param{{Name: "f", T: 22}, {Name: "n", T: 0}}, Rs: []int{0}})
 	// uncurry: an inner RESULT that bears the name of the outer parameter (two signatures merged into one)
 	for i, c := range []struct {
 		outer string
@@ -440,7 +449,7 @@ func (g *gen) genC16() {
 			}
 		}
 		// every type of the table as a final result
-		for _, t := range funcs.Types {
+		for _, t := range funcs.Types[:funcs.PoolSize()] {
 			n := 2 + t.ID%3
 			st := make([][]int, n)
 			for s := range st {
@@ -479,7 +488,7 @@ func (g *gen) genC16() {
 	}
 	// ---- fmap, error form
 	g.add(&funcs.Class{Prop: "C16", Kind: "fmape", Tag: "results:0", In: g.anyType()})
-	for _, t := range funcs.Types {
+	for _, t := range funcs.Types[:funcs.PoolSize()] {
 		g.add(&funcs.Class{Prop: "C16", Kind: "fmape", Tag: "results:1:" + t.Kind, In: g.anyType(), Outs: []int{t.ID}})
 	}
 	for i := 0; i < 6; i++ {
@@ -491,7 +500,7 @@ func (g *gen) genC16() {
 	g.add(&funcs.Class{Prop: "C16", Kind: "fmape", Tag: "tupleclash", In: g.okType(), Outs: []int{0, 9, 1}, TupleClash: []int{0, 13, 1}})
 	// ---- join, error form
 	g.add(&funcs.Class{Prop: "C16", Kind: "joine", Tag: "results:0"})
-	for _, t := range funcs.Types {
+	for _, t := range funcs.Types[:funcs.PoolSize()] {
 		g.add(&funcs.Class{Prop: "C16", Kind: "joine", Tag: "results:1:" + t.Kind, Outs: []int{t.ID}})
 	}
 	for i := 0; i < 4; i++ {
@@ -509,7 +518,7 @@ func (g *gen) genC16() {
 		g.add(&funcs.Class{Prop: "C16", Kind: "fmape", Tag: fmt.Sprintf("results:%d", 2+i%2), In: g.anyType(), Outs: g.types(2+i%2, false)})
 	}
 	// ---- traverse
-	for _, t := range funcs.Types {
+	for _, t := range funcs.Types[:funcs.PoolSize()] {
 		g.add(&funcs.Class{Prop: "C16", Kind: "traverse", Tag: "out:" + t.Kind, In: g.anyType(), Outs: []int{t.ID}})
 	}
 	// ---- custom error types and near-misses wherever derive.IsError decides (accept / refuse, does the
